@@ -72,7 +72,7 @@ fn hostile_frame(ch: &mut Chooser, reduced: bool) -> Box<dyn Fn(&Probe, &LwCfg, 
     }
 }
 
-fn lw_hostile(tag: &str, cfg: LwCfg, script: Vec<Op>, rounds: usize, pairs: bool) -> Scenario {
+pub fn lw_hostile(tag: &str, cfg: LwCfg, script: Vec<Op>, rounds: usize, pairs: bool) -> Scenario {
     let si = Arc::new(ScriptInfo::new(script));
     let name = format!("{}|{}|{}|r{}|pairs{}", tag, cfg.name(), si.name, rounds, pairs as u8);
     let run = move |ch: &mut Chooser| -> ExecResult {
@@ -216,6 +216,9 @@ fn ew_states(pairs: bool) -> Scenario {
     Scenario { name, d: 0, run: Box::new(run) }
 }
 
+/// Reliable 700 B then TimeSensitive packets that do not fit the first flushes, both directions busy
+pub fn ts_session() -> Vec<Op> { use SendMode::*; vec![send(0, 0, 0, Reliable, 700), send(0, 0, 0, TimeSensitive, 900), send(0, 0, 1, TimeSensitive, 1448), send(1, 0, 0, Reliable, 100), send(1, 1, 0, Reliable, 50), send(2, 0, 1, TimeSensitive, 30), send(3, 0, 0, Unreliable, 21)] }
+
 pub fn build(quick: bool) -> PropRun {
     let mut scs: Vec<Scenario> = Vec::new();
     use SendMode::*;
@@ -225,6 +228,8 @@ pub fn build(quick: bool) -> PropRun {
         scs.push(lw_hostile("C03.lw-hostile", cfg.clone(), session.clone(), if quick { 6 } else { 12 }, false));
         if !quick { scs.push(lw_hostile("C03.lw-hostile-pairs", cfg, session.clone(), 8, true)); }
     }
+    // a session in which TimeSensitive packets are dequeued but cannot start (the budget is used up) and are given up at the next step
+    scs.push(lw_hostile("C03.lw-hostile-ts", LwCfg { pwin: 4096, fwin: 4096, ..LwCfg::small() }, ts_session(), if quick { 4 } else { 8 }, false));
     // (b)
     for tb in 0..=255u8 { if quick && !(tb <= 13 || tb >= 250 || tb % 32 == 0) { continue; } scs.push(ew_flood(tb, if quick { 1 } else { 2 })); }
     scs.push(ew_states(false));
